@@ -426,42 +426,9 @@ func TestC06(t *testing.T) {
 	// the same round trip from several goroutines at once, each with its own instances (per main number; payloads
 	// from the low and the high end of the byte range): decode, re-encode and render must give what they give alone
 	if rec.Env.Shard == 0 {
-		byMain := map[int][]typeInfo{}
-		var mains []int
-		for _, ti := range types {
-			if len(byMain[ti.Main]) == 0 {
-				mains = append(mains, ti.Main)
-			}
-			byMain[ti.Main] = append(byMain[ti.Main], ti)
-		}
-		var storms int64
-		for _, m := range mains {
-			plan := c19Plan{Mode: "storm"}
-			for gi := 0; gi < 8; gi++ {
-				ti := byMain[m][gi%len(byMain[m])]
-				n := ti.WireL
-				if n <= 0 {
-					n = 11
-				}
-				mk := func(fill byte) string {
-					p := bytes.Repeat([]byte{fill}, n)
-					p[0] = 0
-					if n == 1 {
-						p[0] = fill & 0x3f
-					}
-					if ti.WireL <= 0 {
-						p[n-1] = 0
-					}
-					return hx(p)
-				}
-				fills := [][]byte{{0x42, 0x7d}, {0xfe, 0xc7}, {0x02, 0x81}, {0x3e, 0xe0}}[gi%4]
-				plan.Ops = append(plan.Ops, []c19Op{{Op: "produce", Name: ti.Name, H: 300}, {Op: "unpack", Hex: mk(fills[0])}, {Op: "unpack", Hex: mk(fills[1])}})
-			}
-			storms++
-			if f := common.Guard(func() *common.Fail { return c19Run(plan) }); f != nil {
-				common.Report(t, rec, f, c06Plan{Type: byMain[m][0].Name, Hex: "00"})
-				break
-			}
+		f, first, storms := roundTripStorms(types, [][]byte{{0x42, 0x7d}, {0xfe, 0xc7}, {0x02, 0x81}, {0x3e, 0xe0}}, 300)
+		if f != nil {
+			common.Report(t, rec, f, c06Plan{Type: first, Hex: "00"})
 		}
 		rec.Eval(storms * 8 * 300 * 2)
 		rec.ClassN("concurrent-round-trip-storms", storms)
